@@ -275,8 +275,39 @@ func hostileMain(args []string) int {
 					return nil
 				}, func(context.Context) {})
 		}
+		flooded := false
+		// some sessions that have not started the handshake: a peer that floods pings and does not read the answers, so that the node's
+		// outgoing queue (1000 messages) fills up and its message handling waits on it when the connection goes
+		if phase == "connected" && rng.Intn(4) == 0 && !*describe {
+			fmt.Printf("INPUT %d ping flood from a peer that does not read (6000 pings)\n", i)
+			var flood bytes.Buffer
+			for k := 0; k < 6000; k++ {
+				flood.Write(wireMessage(wire.NewMsgPing(uint64(k))))
+			}
+			wrote := make(chan struct{})
+			go func() {
+				s.conn.SetWriteDeadline(time.Now().Add(3 * time.Second))
+				s.conn.Write(flood.Bytes())
+				close(wrote)
+			}()
+			// the peer never completes the handshake: the node gives up by itself after 3 s and closes the
+			// channel its blocked handler is sending on
+			select {
+			case err := <-s.runDone:
+				s.runDone <- err
+			case <-time.After(4500 * time.Millisecond):
+			}
+			select {
+			case <-wrote:
+			case <-time.After(time.Second):
+			}
+			flooded = true
+		}
 		// one to three hostile inputs
 		nin := 1 + rng.Intn(3)
+		if flooded {
+			nin = 0
+		}
 		closed := false
 		for k := 0; k < nin && !closed; k++ {
 			what, data := hostileInput(s, rng)
